@@ -55,45 +55,44 @@ let next st =
 let p_int st = int_of_string (next st)
 let p_nat st = nat_of_int (p_int st)
 let p_n st = mn_of_z (BZ.of_string (next st))
-let p_f st = qc_of_string (next st)
 let p_list st (p : stream -> 'a) : 'a list =
   let k = p_int st in
   let rec go i = if i = 0 then [] else let x = p st in x :: go (i - 1) in
   go k
 let rec p_times k st p = if k = 0 then [] else let x = p st in x :: p_times (k - 1) st p
 
-let p_scalar st : qc scalar =
+let p_scalar p_f st =
   match next st with
   | "F" -> ScF (p_f st)
   | "I" -> ScI (mz_of_z (BZ.of_string (next st)))
   | t -> raise (Parse ("scalar kind " ^ t))
 
-let rec p_expr st : qc pexpr =
+let rec p_expr p_f st =
   match next st with
   | "Id" -> PId
   | "Pos" -> PPos (p_nat st)
   | "Der" -> PDer (p_nat st)
   | "Spl" -> PSpl (p_nat st)
-  | "Mul" -> let a = p_expr st in let b = p_expr st in PMul (a, b)
-  | "Add" -> let a = p_expr st in let b = p_expr st in PAdd (a, b)
-  | "Sub" -> let a = p_expr st in let b = p_expr st in PSub (a, b)
-  | "SMulL" -> let s = p_scalar st in let a = p_expr st in PSMulL (s, a)
-  | "SMulR" -> let a = p_expr st in let s = p_scalar st in PSMulR (a, s)
-  | "DivS" -> let a = p_expr st in let s = p_scalar st in PDivS (a, s)
-  | "AddS" -> let a = p_expr st in let s = p_scalar st in PAddS (a, s)
-  | "SAdd" -> let s = p_scalar st in let a = p_expr st in PSAdd (s, a)
-  | "SubS" -> let a = p_expr st in let s = p_scalar st in PSubS (a, s)
-  | "SSub" -> let s = p_scalar st in let a = p_expr st in PSSub (s, a)
-  | "Neg" -> PNeg (p_expr st)
+  | "Mul" -> let a = p_expr p_f st in let b = p_expr p_f st in PMul (a, b)
+  | "Add" -> let a = p_expr p_f st in let b = p_expr p_f st in PAdd (a, b)
+  | "Sub" -> let a = p_expr p_f st in let b = p_expr p_f st in PSub (a, b)
+  | "SMulL" -> let s = p_scalar p_f st in let a = p_expr p_f st in PSMulL (s, a)
+  | "SMulR" -> let a = p_expr p_f st in let s = p_scalar p_f st in PSMulR (a, s)
+  | "DivS" -> let a = p_expr p_f st in let s = p_scalar p_f st in PDivS (a, s)
+  | "AddS" -> let a = p_expr p_f st in let s = p_scalar p_f st in PAddS (a, s)
+  | "SAdd" -> let s = p_scalar p_f st in let a = p_expr p_f st in PSAdd (s, a)
+  | "SubS" -> let a = p_expr p_f st in let s = p_scalar p_f st in PSubS (a, s)
+  | "SSub" -> let s = p_scalar p_f st in let a = p_expr p_f st in PSSub (s, a)
+  | "Neg" -> PNeg (p_expr p_f st)
   | t -> raise (Parse ("expression head " ^ t))
 
-let p_boundary st : qc boundary =
+let p_boundary p_f st =
   let nd = (match next st with "FIRST" -> FIRST | "LAST" -> LAST | t -> raise (Parse ("node " ^ t))) in
   let d = p_nat st in
   let v = p_f st in
   { bnode = nd; bderiv = d; bvalue = v }
 
-let p_op st : qc op =
+let p_op p_f st =
   match next st with
   | "GridNew" -> let d = p_nat st in let l = p_list st p_f in GridNew (d, l)
   | "GridCopy" -> let d = p_nat st in let a = p_nat st in GridCopy (d, a)
@@ -155,21 +154,21 @@ let p_op st : qc op =
   | "SplOverlap" -> let a = p_nat st in let b = p_nat st in SplOverlap (a, b)
   | "SplEq" -> let a = p_nat st in let b = p_nat st in SplEq (a, b)
   | "SplSupport" -> let d = p_nat st in let a = p_nat st in SplSupport (d, a)
-  | "Apply" -> let d = p_nat st in let a = p_nat st in let e = p_expr st in Apply (d, e, a)
+  | "Apply" -> let d = p_nat st in let a = p_nat st in let e = p_expr p_f st in Apply (d, e, a)
   | "Transform" ->
-      let g = p_nat st in let k = p_n st in let c = p_list st p_f in let e = p_expr st in
+      let g = p_nat st in let k = p_n st in let c = p_list st p_f in let e = p_expr p_f st in
       Transform (e, c, g, k)
   | "Bilin" ->
-      let a = p_nat st in let b = p_nat st in let e1 = p_expr st in let e2 = p_expr st in
+      let a = p_nat st in let b = p_nat st in let e1 = p_expr p_f st in let e2 = p_expr p_f st in
       Bilin (e1, e2, a, b)
-  | "Lin" -> let a = p_nat st in let e = p_expr st in Lin (e, a)
+  | "Lin" -> let a = p_nat st in let e = p_expr p_f st in Lin (e, a)
   | "Gen1" -> let d0 = p_nat st in let o = p_nat st in let ks = p_list st p_f in Gen1 (d0, o, ks)
   | "Gen2" ->
       let d0 = p_nat st in let o = p_nat st in let g = p_nat st in let ks = p_list st p_f in
       Gen2 (d0, o, ks, g)
   | "Interp" ->
       let d = p_nat st in let o = p_nat st in let x = p_nat st in
-      let y = p_list st p_f in let bs = p_list st p_boundary in
+      let y = p_list st p_f in let bs = p_list st (p_boundary p_f) in
       Interp (d, o, x, y, bs)
   | "InterpDefault" ->
       let d = p_nat st in let o = p_nat st in let x = p_nat st in let y = p_list st p_f in
@@ -182,10 +181,10 @@ let string_of_tag = function
   | Tgrid -> "GRID" | Tsup -> "SUP" | Tspl -> "SPL" | Tnone -> "NONE" | Tsome -> "SOME"
   | Ttrue -> "true" | Tfalse -> "false" | Tvoid -> "VOID" | Trow -> "ROW" | Tlist -> "LIST"
 
-let string_of_tok = function
+let string_of_tok sf = function
   | TT t -> string_of_tag t
   | TN n -> BZ.to_string (z_of_mn n)
-  | TF x -> string_of_qc x
+  | TF x -> sf x
 
 let string_of_err = function
   | DIFFERING_GRIDS -> "DIFFERING_GRIDS" | INCONSISTENT_DATA -> "INCONSISTENT_DATA"
@@ -197,8 +196,8 @@ let string_of_ub = function
   | OOBRead -> "OOBRead" | OOBWrite -> "OOBWrite" | DivByZero -> "DivByZero"
   | ErasePastEnd -> "ErasePastEnd" | SignedOverflow -> "SignedOverflow" | IllTyped -> "IllTyped"
 
-let string_of_outcome = function
-  | Ok o -> String.concat " " ("OK" :: List.map string_of_tok o)
+let string_of_outcome sf = function
+  | Ok o -> String.concat " " ("OK" :: List.map (string_of_tok sf) o)
   | Throw e -> "THROW " ^ string_of_err e
   | UB k -> "UB " ^ string_of_ub k
 
@@ -207,17 +206,24 @@ let split_ws (s : string) : string list =
   List.filter (fun t -> t <> "") (String.split_on_char ' ' (String.trim s))
 
 let () =
-  let ic = if Array.length Sys.argv > 1 then open_in Sys.argv.(1) else stdin in
-  let state : qc state ref = ref [] in
+  let args = List.tl (Array.to_list Sys.argv) in
+  let pair = List.mem "--pair" args in
+  let files = List.filter (fun a -> a <> "--pair") args in
+  let ic = (match files with f :: _ -> open_in f | [] -> stdin) in
+  let qstate : qc state ref = ref [] in
+  let pstate : pq state ref = ref [] in
   let case = ref "" in
   let idx = ref 0 in
+  let qf st = qc_of_string (next st) in
+  let pf st = Model.mk_pq (qc_of_string (next st)) in
+  let string_of_pq (x : pq) = string_of_qc (fst x) ^ "~" ^ string_of_qc (snd x) in
   (try
      while true do
        let line = input_line ic in
        match split_ws line with
        | [] -> ()
        | "#" :: _ -> ()
-       | [ "CASE"; id ] -> case := id; idx := 0; state := []
+       | [ "CASE"; id ] -> case := id; idx := 0; qstate := []; pstate := []
        | [ "END" ] -> ()
        | ("XGrid" | "XGen") :: _ as toks ->
            incr idx;
@@ -233,12 +239,20 @@ let () =
        | toks ->
            incr idx;
            let st = { toks } in
-           (match (try Some (p_op st) with Parse m | Failure m -> prerr_endline ("parse error: " ^ m ^ " in: " ^ line); None) with
-            | None -> Printf.printf "%s.%d PARSE_ERROR\n" !case !idx
-            | Some o ->
-                let (s', r) = Model.qstep !state o in
-                state := s';
-                Printf.printf "%s.%d %s\n" !case !idx (string_of_outcome r))
+           if pair then
+             (match (try Some (p_op pf st) with Parse m | Failure m -> prerr_endline ("parse error: " ^ m ^ " in: " ^ line); None) with
+              | None -> Printf.printf "%s.%d PARSE_ERROR\n" !case !idx
+              | Some o ->
+                  let (s', r) = Model.pstep !pstate o in
+                  pstate := s';
+                  Printf.printf "%s.%d %s\n" !case !idx (string_of_outcome string_of_pq r))
+           else
+             (match (try Some (p_op qf st) with Parse m | Failure m -> prerr_endline ("parse error: " ^ m ^ " in: " ^ line); None) with
+              | None -> Printf.printf "%s.%d PARSE_ERROR\n" !case !idx
+              | Some o ->
+                  let (s', r) = Model.qstep !qstate o in
+                  qstate := s';
+                  Printf.printf "%s.%d %s\n" !case !idx (string_of_outcome string_of_qc r))
      done
    with End_of_file -> ());
   flush stdout
